@@ -21,7 +21,7 @@ LEVEL = "model_checking"
 MANIFEST = dict(
     text="SqlExpr.tla: expression trees of depth <=2, exhaustive per family (arithmetic + - * / % unary minus and custom op(); "
          "comparisons, IS [NOT] NULL, BETWEEN, IN, AND/OR/NOT with negation rewriting; predicates under arithmetic, CASE, CAST, scalar "
-         "subquery; || LIKE startswith/endswith/contains) and depth 3 sampled with the seed - ~9.6k trees quick - each evaluated by TLC on "
+         "subquery; || LIKE startswith/endswith/contains) and depth 3 sampled with the seed - ~6.5k trees quick - each evaluated by TLC on "
          "36 rows incl. NULL, negatives, empty strings. Every tree is built with the expression language; on SQLite the compiled "
          "statement (bound, literal_binds, WHERE position) must return the values of the harness's fully parenthesised rendering; "
          "for postgresql/mysql/mssql/oracle the rendered text is parsed back with a backend-agnostic precedence parser and must "
@@ -102,7 +102,11 @@ def _worker(chk, fam, rows, idx):
                         i = next(i for i in range(len(exp)) if got[i] != exp[i])
                         detail, kind = "row %r: %r, fully parenthesised %r" % (rows[lo - 1 + i][:2] if fname != "str" else rows[lo - 1 + i][2:],
                                                                              got[i], exp[i]), "value"
-                    out["viol"].append((dict(base, dialect=dialect, mode=mode, kind=kind),
+                    sig = dict(base, dialect=dialect, mode=mode, kind=kind)
+                    if kind == "error":
+                        sig["error"] = got
+                        sig["sqlite_renders_floor"] = "FLOOR(" in (sqltext or "")
+                    out["viol"].append((sig,
                                         "%s rendered [%s] as  %s  -> %s   (reference: %s)" % (node, mode, " ".join((sqltext or "").split()), detail, ptext),
                                         dict(tokens=c.tokens, mode=mode, sql=sqltext, reference_sql=ptext, got=got, expected=exp)))
 
@@ -181,7 +185,7 @@ def _worker(chk, fam, rows, idx):
 def main(chk):
     import time
     t0 = time.time()
-    fam = sx.family(chk, "c01", sample_n=5 if chk.quick else 12, workers=4, timeout=900 if chk.quick else 3000)
+    fam = sx.family(chk, "c01", sample_n=4 if chk.quick else 12, workers=4, timeout=900 if chk.quick else 3000)
     rows = fam.rows
     t1 = time.time()
     eng, _t = sx.make_db(os.path.join(chk.work, "c01.db"), rows)
@@ -196,7 +200,7 @@ def main(chk):
             chk.machinery(o["machinery"])
         for sig, what, rp in o["viol"]:
             cls = ("neg-of-negative-literal" if sig.get("neg_of_negative_literal") else "between-bound-is-predicate" if sig.get("between_bound_is_predicate")
-                   else "floordiv-of-predicate" if sig.get("floordiv_of_predicate_operand") else sig.get("family"))
+                   else "sqlite-floor-udf" if sig.get("sqlite_renders_floor") else sig.get("family"))
             kk = "%s/%s/%s/%s" % (sig.get("dialect"), sig.get("mode"), sig.get("kind"), cls)
             disagreements[kk] = disagreements.get(kk, 0) + 1
             examples.setdefault(kk, what[:700])
